@@ -108,7 +108,8 @@ ASSUMPTIONS = [
     "whose message is the documented one, and it is not raised when urllib's hostname of the url is facebook.<tld> or a subdomain of it "
     "(fb.me, which has no mobile site, and look-alike hosts are not judged)",
     "reading of the round trip: demanded of every returned record whose fields are plain id-like / handle-like tokens ([A-Za-z0-9_.-]+ "
-    "and blanks — an id typed with a stray blank, as the youtube part reads it —, not '.' / '..'), the quantifier's 'id-like / handle-like / "
+    "and blanks — an id typed or pasted with a stray blank, as the youtube part reads it: any str.isspace character but TAB CR LF, which "
+    "urlsplit deletes —, not '.' / '..'), the quantifier's 'id-like / handle-like / "
     "too-short / too-long segments'; for every other record only totality is "
     "demanded (record.url and parse(record.url) do not raise). A record with an empty string in a field is not well-formed (as for the other "
     "platforms: 'record with id \'\'' findings)",
@@ -433,7 +434,15 @@ def path_fields_clean(r):
 # --------------------------------------------------------------------------------------
 # oracle: the property, on the implementation only
 # --------------------------------------------------------------------------------------
-TOKEN_RE = _re.compile(r"^[A-Za-z0-9_.\- ]+$")
+TOKEN_CHARS = frozenset("ABCDEFGHIJKLMNOPQRSTUVWXYZabcdefghijklmnopqrstuvwxyz0123456789_.-")
+
+
+def plain_token(v):
+    """letters, digits, `_ . -` and blanks — any `str.isspace` character but TAB, CR, LF (which `urlsplit` deletes wherever
+    they are: by design)"""
+    return v != "" and all(c in TOKEN_CHARS or (c.isspace() and c not in "\t\r\n") for c in v)
+
+
 DOC_ERROR_RE = _re.compile(r"^ural\.facebook\.convert_facebook_url_to_mobile: .* is not a facebook url$", _re.S)
 FB_HOST_RE = _re.compile(r"(?:^|\.)facebook\.[^.]+$")
 
@@ -444,13 +453,13 @@ def slots_of(r):
 
 def in_scope(r):
     """the records the round trip is demanded of: every field is a plain id-like / handle-like
-    token (letters, digits, `_ . -`, and blanks: an id typed or pasted with a stray blank, as for
-    the youtube part), not a dot segment (the reading of the quantifier "id-like / handle-like /
-    too-short / too-long segments")"""
+    token (letters, digits, `_ . -`, and blanks: an id typed or pasted with a stray blank — a
+    space, a no-break space, an ideographic space … —, as for the youtube part), not a dot segment
+    (the reading of the quantifier "id-like / handle-like / too-short / too-long segments")"""
     for _, v in slots_of(r):
         if v is None:
             continue
-        if not isinstance(v, str) or not TOKEN_RE.match(v) or v in (".", ".."):
+        if not isinstance(v, str) or not plain_token(v) or v in (".", ".."):
             return False
     return True
 
